@@ -29,7 +29,8 @@ PAIRS = {
 }
 EVENTS = [['call', 0], ['call', 1], ['call', 2], ['call', 'ref'], ['call_wrong_species'], ['call_target_itself'],
           ['call_ndarray'], ['call_same_name_longer'], ['call_same_name_shorter'],
-          ['mut_ref_coords'], ['mut_tgt_coords'], ['mut_arg_coords', 1], ['mut_last_result']]
+          ['mut_ref_coords'], ['mut_tgt_coords'], ['mut_arg_coords', 1], ['mut_last_result'],
+          ['respecies_arg', 1]]
 SCALE = 0.5
 
 
@@ -149,12 +150,12 @@ class C04(Check):
     level = 'model_checking'
     rule = ('state = history over events {call(arg0|arg1|arg2), call(wrong species), call(the target itself), '
             'call(ndarray), mutate construction reference coordinates, mutate construction target coordinates, mutate '
-            'argument 1, mutate the last returned molecule} on one ExchangeMap; BFS to the stated depth without merging '
+            'argument 1, mutate the last returned molecule, rename argument 1 to another species (own topology)} on one ExchangeMap; BFS to the stated depth without merging '
             '(every history is a distinct state), oracle after every transition; de Bruijn words of order 2 and 3; '
             'non-trivial = a call event whose result was compared with a freshly built map')
     technique = ('explicit-state breadth-first search over call/mutation histories on the real ExchangeMap with a '
                  'differential oracle (fresh map built from fresh files) after every transition; de Bruijn histories')
-    level_text = ('every history up to depth 4 (quick) / 5 (thorough) over a 10-event alphabet, on 3 reference/target '
+    level_text = ('every history up to depth 4 (quick) / 5 (thorough) over a 14-event alphabet, on 3 reference/target '
                   'pairs x 2 ways of producing arguments (sharing the species topology as System does / independently '
                   'loaded), is executed on the real map and checked after every event; histories of length 101 and 1002 '
                   'containing every ordered pair / triple of events cover the long-history clause')
@@ -218,7 +219,22 @@ class C04(Check):
         mutated = None
         d = np.array([0.125, -0.25, 0.5])
         try:
-            if name == 'call':
+            if name == 'respecies_arg':
+                # an argument with its OWN topology is turned into another species through the public API
+                # (molecule name); from then on the map must reject it.  With a shared topology the event is
+                # a no-op (renaming would change the species of the construction reference too)
+                if mode == 'own_top':
+                    w.args[ev[1]].name = 'OTHERSP'
+                    w.respecied = getattr(w, 'respecied', set()) | {ev[1]}
+            elif name == 'call' and ev[1] in getattr(w, 'respecied', ()):
+                try:
+                    w.map(w.args[ev[1]])
+                    V.append(('call_after_species_change/accepted', 'argument renamed to another species was mapped'))
+                except TypeError:
+                    pass
+                except Exception as exc:
+                    V.append(('call_after_species_change/rejected-with-other-than-TypeError', repr(exc)))
+            elif name == 'call':
                 arg = w.ref if ev[1] == 'ref' else w.args[ev[1]]
                 before_resids = list(arg.resids)
                 out = w.map(arg)
